@@ -23,7 +23,7 @@ def obligations(tier: str) -> list[Ob]:
                 "openapi_python_client.parser.properties:_property_from_ref", "openapi_python_client.parser.properties.schemas:parse_reference_path",
             ],
             stubs=["parameter kinds, names, locations, response contents and malformed reference strings come from pools selected by symbolic indices"],
-            bounds={"parameter": "4 locations x 5 kinds x 3 names x required", "response contents": 5, "malformed refs": 6, "schema kinds": "3 x 4 wrappers x required", "component aliases": "6 target shapes x 3 wrappers x 6 declaration orders, direct and through a second alias"},
+            bounds={"parameter": "4 locations x 5 kinds x 3 names x required", "response contents": 5, "malformed refs": 6, "schema kinds": "3 x 4 wrappers x required", "component aliases": "6 target shapes x 3 wrappers x 6 declaration orders, direct and through a second alias", "allOf member by reference": "Base required? x Child requires? x Child re-declares (no, same, case twin, narrower list items) x 6 declaration orders"},
         ),
         harness_ob(
             "dangling_ref_containment", "C08_state.py", tier, funcs=["only_the_failing_model_is_removed"], timeout=240 if q else 900, cpus=2,
